@@ -25,7 +25,7 @@ BOUNDS = {"quick": "grid: BTrep(3,4) tables, all upper patterns n<=4 on 2 tables
           "thorough": "grid: all upper patterns n<=4 on every BTrep(3,4) table, all square n<=3 on every table, structured n=5 on every BT(3,5) class; forms: 40 base points"}
 ASSUMPTIONS = ["values are small integers / dyadic rationals, exact in every dtype used; dtype identity of what comes back is not compared",
                "input pixel records are valid (in range, upper-triangular in symmetric mode, no duplicates)"]
-EXPECT_CLASSES = {"*": ["mode:symm", "mode:square", "form:perm", "form:chunks", "form:dict", "array", "storage", "meta"]}
+EXPECT_CLASSES = {"*": ["mode:symm", "mode:square", "form:perm", "form:chunks", "form:dict", "form:labels", "array", "storage", "meta"]}
 
 PATS = 64
 
@@ -243,6 +243,15 @@ def _forms(R, b, only):
         for perm in itertools.permutations(range(m)):
             rows = [keys[q] for q in perm]
             one("perm", list(perm), lambda rows=rows: (frame(rows), {}))
+    # row labels are the caller's business: all equal (a concat without ignore_index), decreasing, strings - whole frame and chunks
+    if m:
+        one("labels", "repeated", lambda: (frame(keys[::-1]).set_axis([7] * m), {}))
+        one("labels", "decreasing", lambda: (frame(keys).set_axis(list(range(m, 0, -1))), {}))
+        one("labels", "strings", lambda: (frame(keys).set_axis([f"r{q % 2}" for q in range(m)]), {}))
+        one("labels", "repeated-chunks-unordered", lambda: (iter([frame(keys[m // 2:]).set_axis([3] * (m - m // 2)), frame(keys[:m // 2]).set_axis([3] * (m // 2))]),
+                                                            {"ordered": False, "mergebuf": 2}))
+        one("labels", "repeated-chunks-ordered", lambda: (iter([frame(keys[:m // 2]).set_axis([3] * (m // 2)), frame(keys[m // 2:]).set_axis([3] * (m - m // 2))]),
+                                                          {"ordered": True}))
     one("dict", "sorted", lambda: (asdict(frame(keys)), {}))
     one("dict", "reversed", lambda: (asdict(frame(keys[::-1])), {}))
     for comp in alpha.compositions(m):
